@@ -142,6 +142,9 @@ LANG_NLS = {
     "cs": "\n\r\x85\u2028\u2029",
 }
 CPP_SPLICE_WS = " \t\x0b\x0c\x00\r"
+# Line terminators which may not stand in a string literal: ECMAScript admits U+2028 / U+2029 there since ES2019
+# (the edition TypeScript literals are read with, see design.d/C20.md).
+LANG_STR_NLS = dict(LANG_NLS, js="\n\r")
 
 
 def java_unescape(s: str) -> Optional[str]:
@@ -224,7 +227,7 @@ def lex_c(s: str, lang: str) -> List[str]:
                     toks.append("s:" + enc_text(s[i + 1 : j]))
                     i = j + 1
                     break
-                if s[j] in nls:
+                if s[j] in LANG_STR_NLS[lang]:
                     toks.append("bad:newline-in-string")
                     i = j + 1
                     break
@@ -455,6 +458,44 @@ def run_node(work: pathlib.Path, items: Sequence[Tuple[int, str]]) -> Dict[int, 
     return {int(k): v for k, v in json.loads(r.stdout).items()}
 
 
+NODE_LITERAL_SCRIPT = r"""
+const vm = require('vm'); const fs = require('fs');
+const items = JSON.parse(fs.readFileSync(process.argv[2], 'utf8'));
+const bad = {};
+for (const [idx, src] of items) {
+  try { new vm.Script("(" + src + ")"); } catch (e) { bad[idx] = String(e.message); }
+}
+process.stdout.write(JSON.stringify(bad));
+"""
+
+
+def _node_string_literals(ctx: Ctx, ts: Sequence[str]) -> None:
+    """Validate the string-literal rule of the JavaScript spec lexer (ES2019: U+2028 / U+2029 admitted) against node.
+
+    ``"`` + t + ``"`` for the texts without a backslash (the spec lexer does not judge the escapes): the spec lexer says
+    "exactly one string token" iff node compiles ``("…")``.
+    """
+    items = [(k, '"' + t + '"') for k, t in enumerate(ts) if "\\" not in t and encodable(t)]
+    if not items:
+        return
+    work = ctx.scratch()
+    (work / "lit.js").write_text(NODE_LITERAL_SCRIPT)
+    (work / "lits.json").write_text(json.dumps([[i, c] for i, c in items]), encoding="utf-8")
+    r = subprocess.run(["node", str(work / "lit.js"), str(work / "lits.json")], capture_output=True, text=True, timeout=900)
+    if r.returncode != 0:
+        raise RuntimeError("node failed: " + r.stderr[:400])
+    bad = {int(k): v for k, v in json.loads(r.stdout).items()}
+    for k, src in items:
+        toks = lex_c(src, "js")
+        spec_ok = len(toks) == 1 and toks[0].startswith("s:")
+        ctx.count(("node-literal", src), stream="lexer-validation:node-string-literal")
+        ctx.traces_validated += 1
+        if "\u2028" in src or "\u2029" in src:
+            ctx.hit("node-literal:ls-ps-in-string:" + ("accepted" if k not in bad else "rejected"))
+        if spec_ok != (k not in bad):
+            ctx.disagree("lexer-validation:node-string-literal", {"lang": "js", "source": src}, "node:" + bad.get(k, "ok"), "spec-lexer:" + " ".join(toks))
+
+
 # --------------------------------------------------------------------------- the run
 
 
@@ -522,6 +563,10 @@ def _run(ctx: Ctx, with_model: bool) -> None:
                 continue
             for lang, raw in (("java", f"/**\n * {t}\n */"), ("js", f"/**\n * {t}\n */"), ("cpp", f"/// {t}\nx"), ("go", f"// {t}\nx"), ("cs", f"/// {t}\nx")):
                 cand.append((lang, raw))
+            if len(t) <= 2 and stream != "random":
+                # string literals: which line terminators break a literal (JavaScript: not U+2028 / U+2029 since ES2019)
+                for lang in ("java", "js", "cpp", "go", "cs"):
+                    cand.append((lang, f'x = "{t}";\ny'))
         answers = ctx.model([f"lex {lang} {enc_text(raw)}" for lang, raw in cand])
         for (lang, raw), a in zip(cand, answers):
             ctx.count(("lex", lang, raw), stream=f"lex:{lang}")
@@ -550,6 +595,7 @@ def _run(ctx: Ctx, with_model: bool) -> None:
             if mine != real:
                 ctx.disagree("lex:python", {"source": src}, real, a)
     ctx.note(f"wrappers+lexers: {time.time() - t_start:.1f}s")
+    _node_string_literals(ctx, [t for t, stream in batch if len(t) <= 2 and stream != "random"])
     _compilers(ctx, compile_items)
     ctx.note(f"wrappers+lexers+compilers: {time.time() - t_start:.1f}s")
 
